@@ -2,6 +2,7 @@ import Rie.Proofs.Sys
 import Rie.Proofs.SysAgents
 import Rie.Proofs.SysSerial
 import Rie.Props.Tables
+import Rie.Props.RoutesTable
 
 /-!
 # C13 — Extensions API: registration rules and lifecycle automaton
@@ -201,5 +202,17 @@ example :
                           (0, .timer (.resetTail 2)), (0, .invoke 1 5 "h")]).1
     s1.agents.map (·.serial) = [2] ∧ s1.ids.lookup "a" = some 1 ∧
     (step 0 s1 (.agNext "a" "")).outs = ["a.next=403,Extension.UnknownExtensionIdentifier"] := by decide +kernel
+
+/-- **Every call after register must carry an identifier — in the source.** In the route table read
+    from `lambda/rapi/router.go` on every run, every Extensions-API route except `register` (which
+    issues the identifier), and the telemetry subscription routes, are registered behind
+    `middleware.AgentUniqueIdentifierHeaderValidator` (header present and a UUID, else 403 Missing /
+    Invalid identifier before the handler runs); `register` is not. -/
+theorem C13_identifier_validator_in_source :
+    (Rie.Gen.routes.filter (·.2.2.2 == "agentid")).map (fun r => (r.1, r.2.1)) =
+      [("GET", "/2020-01-01/extension/event/next"), ("POST", "/2020-01-01/extension/init/error"),
+       ("POST", "/2020-01-01/extension/exit/error"), ("PUT", "/2020-08-15/logs"), ("PUT", "/2022-07-01/telemetry")] ∧
+    ("POST", "/2020-01-01/extension/register", "", "") ∈ Rie.Gen.routes := by
+  rw [RoutesTable.gen_routes_match]; decide
 
 end Rie.Props.C13
